@@ -11,18 +11,30 @@
    second small machine (Eval) for the history clause of C15.                      *)
 EXTENDS PercolationOps
 
-CONSTANTS Motifs, SharedNames, GridA, GridB
+CONSTANTS Motifs, SharedNames, GridA, GridB,
+          StaleEdgeList       \* deviation: a second percolation of an edited graph object walks the edge list of the first
 
 (* ------------------------- the configuration process ------------------------- *)
-VARIABLES mo, todo, open, caches, hist, phase
-vars == <<mo, todo, open, caches, hist, phase>>
+VARIABLES mo, todo, open, decided, edits, caches, hist, phase
+vars == <<mo, todo, open, decided, edits, caches, hist, phase>>
 
-InitProc == /\ mo \in Motifs /\ todo = mo.E /\ open = {} /\ caches = <<>> /\ hist = <<>> /\ phase = "decide"
+InitProc == /\ mo \in Motifs /\ todo = mo.E /\ open = {} /\ decided = {} /\ edits = 0 /\ caches = <<>> /\ hist = <<>> /\ phase = "decide"
 Decide == /\ phase = "decide" /\ todo # {}
           /\ LET e == CHOOSE x \in todo : TRUE IN
              /\ todo' = todo \ {e}
+             /\ decided' = decided \cup {e}
              /\ \E b \in BOOLEAN : open' = IF b THEN open \cup {e} ELSE open
-          /\ UNCHANGED <<mo, caches, hist, phase>>
+          /\ UNCHANGED <<mo, edits, caches, hist, phase>>
+(* history of the graph OBJECT: after a percolation its edges are moved (same vertices, same number of edges) and it is
+   percolated again; the second pass must decide exactly the current edges *)
+EditAndPercolateAgain ==
+    /\ phase = "decide" /\ todo = {} /\ edits < 1
+    /\ \E m \in Motifs : /\ m.V = mo.V /\ Cardinality(m.E) = Cardinality(mo.E) /\ m.E # mo.E
+                         /\ mo' = m /\ todo' = IF StaleEdgeList THEN mo.E ELSE m.E
+    /\ open' = {} /\ decided' = {} /\ edits' = edits + 1
+    /\ UNCHANGED <<caches, hist, phase>>
+C18_OnlyCurrentEdges == phase = "decide" => (open \subseteq mo.E /\ todo \subseteq mo.E)
+C18_EveryEdgeDecided == (phase = "decide" /\ todo = {}) => decided = mo.E
 C15_RootInComponent == mo.root \in Reach(open, {mo.root})
 C15_ComponentIsConnected == LET C == Reach(open, {mo.root}) IN \A v \in C : v \in Reach({e \in open : e \subseteq C}, {mo.root})
 (* the polynomial is a probability-weighted sum: at u = 1 it is identically 1, i.e. the phi^0 coefficients sum to 1 and
@@ -34,18 +46,18 @@ C15_TotalProbability == (phase = "decide" /\ todo = mo.E) =>
 (* ---------------------------- evaluator cache ---------------------------- *)
 (* the structural caches are keyed by (root, motif NAME): Eval returns the cached table when the key exists *)
 NameOf(m) == IF SharedNames THEN "motif" ELSE m.name
-InitEval == /\ phase = "eval" /\ caches = <<>> /\ hist = <<>> /\ mo \in Motifs /\ todo = {} /\ open = {}
+InitEval == /\ phase = "eval" /\ caches = <<>> /\ hist = <<>> /\ mo \in Motifs /\ todo = {} /\ open = {} /\ decided = {} /\ edits = 0
 Eval == /\ phase = "eval" /\ Len(hist) < 3
         /\ \E m \in Motifs : \E r \in m.V :
               LET key == <<r, NameOf(m)>>
                   val == IF key \in DOMAIN caches THEN caches[key] ELSE <<m.name, r>>     \* the table is determined by (motif, root)
               IN /\ caches' = [k \in DOMAIN caches \cup {key} |-> IF k = key THEN val ELSE caches[k]]
                  /\ hist' = Append(hist, [asked |-> <<m.name, r>>, got |-> val])
-        /\ UNCHANGED <<mo, todo, open, phase>>
+        /\ UNCHANGED <<mo, todo, open, decided, edits, phase>>
 C15_CachePure == \A i \in DOMAIN hist : hist[i].got = hist[i].asked
 
 Init == InitProc \/ InitEval
-Next == Decide \/ Eval
+Next == Decide \/ EditAndPercolateAgain \/ Eval
 Spec == Init /\ [][Next]_vars
 
 (* ---------------------------------- C18 ---------------------------------- *)
